@@ -1,6 +1,7 @@
 import Proofs.MetaState
 import Proofs.MetaDelete
 import Gen.LinkDecisions
+import Proofs.RelateShape
 
 /-!
   C02 — Links stay symmetric, bounded and atomic through any operation history.
@@ -185,5 +186,101 @@ example : SchemaOk sch11 ∧ Dom sch11 init hist := by
     | i + 1, h => simp [sch11] at h
   · simp only [hist, Dom, OpOk, and_true, true_and]
     decide
+
+end PyxProps.C02
+
+/-! ==========================================================================================================
+  SOURCE TIE one level above Link.connect / Link.disconnect  (section owned by the RelateShape extension)
+
+  translator/gen_relateshape.py reads `MetaModel.define_association`, `_find_link`, `relate`, `unrelate`,
+  `MetaClass.delete` / `delete`, `MetaClass.new` and the property getter of `Association.formalize` with `ast`
+  on every run and emits their statement structure as a first-order IR (lean/Gen/RelateShape.lean).
+  Proofs/RelateShape.lean defines ONE generic interpreter of that IR (`Pyx.Shape.i…`, for any IR value).
+  The theorems below state that the model of PyxModel/Meta.lean IS the interpretation of the IR generated from
+  the current source — so a change of the order of the two connects, of the direction test, of the undo, of the
+  arguments handed to _find_link, of which links delete clears (or in which order), of the storage handling of
+  new / delete, or of the getter's fallback changes the IR and breaks these theorems before any test runs; a
+  statement outside the expected shape makes the generator raise (broken tie).
+  ========================================================================================================== -/
+namespace PyxProps.C02
+open Pyx.Meta Pyx.Shape Pyx.Gen.RelateShape
+
+/-- `_find_link`: the model's direction test is the loop body read from the source (first guard that fires:
+    skip on another rel id, found as given when the SOURCE link goes from the first argument's class to the second's
+    with that phrase, found swapped when the TARGET link does), where "source link" / "target link" get their
+    classes and phrase as `define_association` hands them to `add_link` -/
+theorem find_link_as_in_source (sch : Schema) (k1 k2 : Kind) (rel phrase : String) :
+    findLink sch k1 k2 rel phrase =
+      (iFindFrom linkDefs findBody k1 k2 rel phrase 0 sch).map (fun r => (r.1, dirOf r.2)) :=
+  findLink_eq sch k1 k2 rel phrase
+
+/-- the two connects of `relate` (with the undo of the first when the second is refused) and the two disconnects
+    of `unrelate`, on the oriented pair, are the guarded-call lists read from the source -/
+theorem relate_steps_as_in_source (a : AssocSpec) (l : ALinks) (x y fromI toI : Inst) :
+    relateOn a l x y = iSteps linkDefs a { inst1 := x, inst2 := y, fromI := fromI, toI := toI } relateProg.steps l ∧
+    unrelateOn l x y = iSteps linkDefs a { inst1 := x, inst2 := y, fromI := fromI, toI := toI } unrelateProg.steps l :=
+  ⟨relateOn_eq a l x y fromI toI, unrelateOn_eq a l x y fromI toI⟩
+
+/-- `relate` and `unrelate` as wholes: `_find_link` on the arguments the source passes, orientation of the pair,
+    the guarded calls on the association found, the exception when no association matches -/
+theorem relate_as_in_source (sch : Schema) (s : State) (i1 i2 : Inst) (rel phrase : String) :
+    relate sch s i1 i2 rel phrase = iPair linkDefs findBody findElse relateProg sch s i1 i2 rel phrase ∧
+    unrelate sch s i1 i2 rel phrase = iPair linkDefs findBody findElse unrelateProg sch s i1 i2 rel phrase :=
+  ⟨relate_eq sch s i1 i2 rel phrase, unrelate_eq sch s i1 i2 rel phrase⟩
+
+/-- `metaclass.links.values()`: the model's link order of a class is the order in which `define_association`
+    adds the two links -/
+theorem links_of_as_in_source (sch : Schema) (k : Kind) : linksOf sch k = iLinksOfFrom linkDefs k 0 sch :=
+  linksOfFrom_eq k sch 0
+
+/-- `MetaClass.delete` (and `delete`, which forwards to it): storage test, removal and exception, then for every
+    link of the class in `links` order the unrelate of every partner, with the argument order of the source; the
+    `unrelate` it calls is the interpreted one -/
+theorem delete_as_in_source (sch : Schema) (s : State) (x : Inst) :
+    delete sch s x = iDelete linkDefs (iPair linkDefs findBody findElse unrelateProg sch) sch x true deleteBody s :=
+  delete_eq sch s x
+
+/-- `MetaClass.new`, as far as C02's model goes (allocation, storage, generated id): the phases read from the
+    source; the instance is appended to the storage BEFORE the defaults are computed (so a constructor that raises
+    later leaves it there), and the batch relate calls `relate(other_inst, inst, …)` -/
+theorem new_as_in_source (s : State) (k : Kind) (hasId : Bool) :
+    new s k hasId = iNew newPhases s k hasId ∧
+    newPhases.idxOf NewPhase.appendStorage < newPhases.idxOf NewPhase.defaults ∧
+    newPhases.idxOf NewPhase.construct < newPhases.idxOf NewPhase.appendStorage ∧
+    newRelateArgs = (NewArg.other, NewArg.newInst) :=
+  ⟨new_eq s k hasId, by decide, by decide, by decide⟩
+
+/-- the referential read: the getter installed by `Association.formalize` navigates the TARGET link, falls back to
+    the previously installed property exactly when there is no partner and such a property exists, and otherwise
+    returns the partner's attribute (None without partner); the layers pair referential with identifying keys
+    as the wrapping loop zips them -/
+theorem referential_read_as_in_source (sch : Schema) (at_ : Attrs) (s : State) (fuel : Nat) :
+    (∀ x name, getAttr sch at_ s fuel x name = iGetAttr fgetLink fgetFallback sch at_ s fuel x name) ∧
+    (∀ x layers, readLayers sch at_ s fuel x layers = iReadLayers fgetLink fgetFallback sch at_ s fuel x layers) ∧
+    (∀ a, keyPairs a = iKeyPairs fgetZip a) :=
+  ⟨(getAttr_readLayers_eq sch at_ s fuel).1, (getAttr_readLayers_eq sch at_ s fuel).2, keyPairs_eq⟩
+
+/-! non-vacuity: the interpreter is not a renaming of the model — it runs the generated IR on the 1:1 schema above
+    and produces the link, the rejection with undo, the unknown-link exception and the delete -/
+example : ((iPair linkDefs findBody findElse relateProg sch11 (run sch11 [.new 0 true, .new 1 true, .new 1 true]) 0 1 "R1" "").1.links 0).tgt 0 = [1] ∧
+    (iPair linkDefs findBody findElse relateProg sch11 (run sch11 hist) 0 2 "R1" "").2 = .relateExc ∧
+    ((iPair linkDefs findBody findElse relateProg sch11 (run sch11 hist) 0 2 "R1" "").1.links 0).src 2 = [] ∧
+    (iPair linkDefs findBody findElse relateProg sch11 (run sch11 hist) 0 2 "R9" "").2 = .unknownLink ∧
+    iFindFrom linkDefs findBody 1 0 "R1" "" 0 sch11 = some (0, false) ∧
+    iFindFrom linkDefs findBody 0 1 "R1" "" 0 sch11 = some (0, true) ∧
+    ((iDelete linkDefs (iPair linkDefs findBody findElse unrelateProg sch11) sch11 0 true deleteBody (run sch11 hist)).1.links 0).src 1 = [] ∧
+    (iDelete linkDefs (iPair linkDefs findBody findElse unrelateProg sch11) sch11 0 true deleteBody
+      (iDelete linkDefs (iPair linkDefs findBody findElse unrelateProg sch11) sch11 0 true deleteBody (run sch11 hist)).1).2 = .deleteExc := by
+  decide
+/-- a different IR gives a different function: with the two connects of relate swapped (and no undo), a relate that is
+    refused on the source link would leave a half link behind — the equality theorems really depend on the
+    generated program -/
+def swappedRelate : PairProg :=
+  { findArgs := relateProg.findArgs,
+    steps := [ { call := { link := .targetLink, op := .connect, a1 := .inst2, a2 := .inst1 }, undo := [], raises := .relateExc },
+               { call := { link := .sourceLink, op := .connect, a1 := .inst1, a2 := .inst2 }, undo := [], raises := .relateExc } ] }
+example : ((iPair linkDefs findBody findElse swappedRelate sch11 (run sch11 (hist ++ [.new 0 true])) 3 1 "R1" "").1.links 0).tgt 3 = [1] ∧
+    ((relate sch11 (run sch11 (hist ++ [.new 0 true])) 3 1 "R1" "").1.links 0).tgt 3 = [] := by
+  decide
 
 end PyxProps.C02
